@@ -31,6 +31,14 @@ def inject(unit, scratch_repo: Path):
     """Check anchors against the scratch copy (== /repo working tree) and append the harness module."""
     pkg_dir = unit.get("package_dir", "")
     injected = []
+    if unit.get("crate_attrs"):
+        # crate-level attributes needed by harness code only (all under cfg_attr(kani, ..)), prepended to the crate root
+        root = scratch_repo / pkg_dir / "src" / "lib.rs"
+        txt = root.read_text()
+        marker = "// ---- crate attributes injected by /verif ----\n"
+        add = "".join(a + "\n" for a in unit["crate_attrs"] if a not in txt)
+        if add:
+            root.write_text(marker + add + txt)
     for inj in unit["inject"]:
         f = scratch_repo / pkg_dir / inj["file"]
         if not f.exists():
